@@ -119,6 +119,11 @@ fn run(args: &[String]) -> i32 {
         out
     });
     let mut out = Out::new(arg(args, "--out"));
+    // first line: the dimension names of the session with their base representation (to read printed types back)
+    let dimtable: serde_json::Map<String, J> = base.dimension_names().iter().filter_map(|n| {
+        numbat::verif::dimension_base_repr(&base, n).map(|v| (n.to_string(), J::Array(v.into_iter().map(|(b, n, d)| json!([b, n.to_string(), d.to_string()])).collect())))
+    }).collect();
+    out.line(&json!({"dimension_names": dimtable}));
     for r in &results { out.line(r); }
     out.flush();
     0
